@@ -48,6 +48,12 @@ def cases(tier, seed):
         out.append({"k": "conv", "fam": fam, "n": n, "cond": cond, "scale": scale, "b": b, "cols": cols, "init": init, "pre": pre, "dt": dt})
     for fam, n, cond, b, pre, ntri in itertools.product(fams + ["repeated"], [2, 3, 5, 6] + ([8, 13] if tier == "thorough" else []), [10.0, 1e3], [[], [2]], ["none", "jacobi", "exact", "lowrank"], [1, 2]):
         out.append({"k": "tridiag", "fam": fam, "n": n, "cond": cond, "b": b, "pre": pre, "ntri": ntri, "dt": "f64"})
+        # Lanczos processes of different length running together: one column (an eigenvector) or one batch member (a multiple of
+        # the identity) breaks down at the first step while the others keep going
+        if n >= 3 and cond == 10.0:
+            out.append({"k": "tridiag", "fam": fam, "n": n, "cond": cond, "b": b, "pre": pre, "ntri": ntri, "dt": "f64", "hetero": "column"})
+            if b:
+                out.append({"k": "tridiag", "fam": fam, "n": n, "cond": cond, "b": b, "pre": pre, "ntri": ntri, "dt": "f64", "hetero": "member"})
     for n in (3, 8):
         for what in ("nan", "limits", "tensor_closure", "vector_rhs", "bad_closure"):
             out.append({"k": "contract", "n": n, "what": what})
@@ -232,7 +238,17 @@ def run_tridiag(case, feat, key):
     A, lam = RA.spd(case["fam"], n, case["cond"], 1.0, f"T{case['fam']}{n}", env.SEED, b)
     ntri = case["ntri"]
     B = torch.randn(*b, n, ntri + 1, generator=RA.gen(f"TB{n}", env.SEED), dtype=torch.float64)
+    het = case.get("hetero")
+    if het == "member":
+        A = A.clone()
+        A[-1] = 2.0 * torch.eye(n, dtype=torch.float64)
     pre, Pinv = make_pre(case["pre"], A, "p")
+    if het == "column":
+        # column 0 is an eigenvector of the preconditioned operator mapped back: P^{-1} A v = lambda v  <=>  breakdown at step 1
+        Pf0 = Pinv.double()
+        wv, Vv = torch.linalg.eig(Pf0 @ A)
+        B = B.clone()
+        B[..., :, 0] = (A @ Vv.real[..., :, :1]).squeeze(-1) if False else torch.linalg.solve(Pf0, Vv.real[..., :, 0].unsqueeze(-1)).squeeze(-1)
     subs = []
     for m in range(1, n + 1):
         with warnings.catch_warnings():
@@ -277,6 +293,14 @@ def run_tridiag(case, feat, key):
                     if small.numel():
                         mm = min(mm, int(small[0]) + 1)
                     mm = min(mm, 6)  # (CG-recurrence Lanczos coefficients drift from the re-orthogonalised reference later on)
+                    # the Krylov space of this column has (numerically unambiguous) dimension >= mm_ref: its Lanczos matrix must be that large
+                    mm_ref = min(Tr.shape[-1], 6)
+                    if small.numel():
+                        mm_ref = min(mm_ref, int(small[0]) + 1)
+                    if Tf.shape[-1] < mm_ref:
+                        bad = (f"tridiagonal truncated to {Tf.shape[-1]}x{Tf.shape[-1]} although the Lanczos process of batch {bi}, column {c} runs for "
+                               f">= {mm_ref} steps within the budget {m}")
+                        break
                     Tg = Tf[c, bi]
                     if Tg.shape[-1] < Tr.shape[-1] and Tg.shape[-1] < m and False:
                         pass
